@@ -607,6 +607,9 @@ class Interp:
             self.assume(k == it.hi)
             self.exec_block(s.orelse)
             return
+        if isinstance(it, VSet) and it.arr is None:
+            self.exec_block(s.orelse)
+            return
         if isinstance(it, (VSet, VBag)):
             srt = it.ek.sorts()[0]
 
@@ -796,6 +799,8 @@ class Interp:
             if attr in self.st.fields:
                 if self.st.opts.get('null_check', True) and self.st.feasible(obj.t == core.null()):
                     if self.branch(obj.t == core.null(), 'nullderef'):
+                        if default is not None:
+                            return default
                         raise_(self, 'AttributeError', VStr("'NoneType' object has no attribute " + attr))
                 v = self.st.read_field(obj.t, attr)
                 if isinstance(v, VDyn):
@@ -878,7 +883,8 @@ class Interp:
 
     def resolve_global(self, name):
         if name in self.spec.env:
-            return self.spec.env[name]
+            v = self.spec.env[name]
+            return v(self) if callable(v) and not isinstance(v, Value) else v
         if name in self.mod.consts:
             c = self.mod.consts[name]
             return self.from_python(c)
@@ -1854,7 +1860,7 @@ def _b_zip(I, args, kw):
 
 def _b_set(I, args, kw):
     if not args:
-        return VTuple([])
+        return VSet(None, None)
     v = unopt(I, args[0])
     if isinstance(v, (VTuple, VCList, VGen)):
         return VTuple(v.items)
